@@ -201,11 +201,22 @@ fn threads_scenario(seed: u64) -> i32 {
     std::panic::set_hook(Box::new(|_| {}));
     let sh = Arc::new(shared());
     let cs = Arc::new(calls(&sh, seed));
-    let expected: Vec<String> = cs.iter().map(|c| perform(c, &sh)).collect();
+    let mut expected: Vec<String> = cs.iter().map(|c| perform(c, &sh)).collect();
+    // every thread also hides and reveals a multi-chunk value under a long
+    // secret of its own (more than 240 octets, different per thread), all at
+    // about the same time: a buffer shared between long-secret calls, locked
+    // per step instead of per call, shows up here
+    let long: Vec<Call> = (0..4usize).map(|t| Call::Hide(5, vec![t as u8 + 1; 250 + 7 * t])).collect();
+    let long_base = expected.len();
+    for c in &long {
+        expected.push(perform(c, &sh));
+    }
+    let long = Arc::new(long);
     let mut hs = Vec::new();
     for t in 0..4usize {
         let sh = sh.clone();
         let cs = cs.clone();
+        let long = long.clone();
         hs.push(std::thread::spawn(move || {
             let mut out = Vec::new();
             for k in 0..6 {
@@ -214,6 +225,9 @@ fn threads_scenario(seed: u64) -> i32 {
                 // and one call that every thread performs at the same time
                 if k == 2 {
                     out.push((0, perform(&cs[0], &sh)));
+                }
+                if k == 1 || k == 4 {
+                    out.push((long_base + t, perform(&long[t], &sh)));
                 }
             }
             out
